@@ -91,6 +91,12 @@ pub struct Conn {
     pub port: Port,
     pub out: Option<Wire>,     // harness end of the pipe the origin node writes into
     pub to_dest: Option<Wire>, // harness end of a direct connection to the destination listener
+    /// frames handed to a real destination on this connection that its receiver must acknowledge (every mempool frame, every Propose),
+    /// frames it must not acknowledge, and the replies read back so far; `broken`: the destination closed it or it was cut
+    pub ackable: usize,
+    pub silent: usize,
+    pub replies: usize,
+    pub broken: bool,
 }
 
 #[derive(Clone)]
@@ -477,6 +483,10 @@ impl Rig {
                     port,
                     out: Some(Framed::new(ic.stream, LengthDelimitedCodec::new())),
                     to_dest: None,
+                    ackable: 0,
+                    silent: 0,
+                    replies: 0,
+                    broken: false,
                 });
                 progress = true;
             }
@@ -799,7 +809,28 @@ impl Rig {
             .now_or_never();
         if !matches!(sent, Some(Ok(()))) {
             self.conns[ci].to_dest = None;
+            self.conns[ci].broken = true;
             return replies;
+        }
+        {
+            let must_ack = match f.port {
+                Port::Mempool => true,
+                Port::Consensus => matches!(bincode::deserialize::<ConsensusMessage>(&f.data), Ok(ConsensusMessage::Propose(_))),
+                Port::Tx => false,
+            };
+            // a frame the receiver cannot decode ends the connection on the consensus port: no statement about such connections
+            let decodable = match f.port {
+                Port::Consensus => bincode::deserialize::<ConsensusMessage>(&f.data).is_ok(),
+                _ => true,
+            };
+            if !decodable {
+                self.conns[ci].broken = true;
+            }
+            if must_ack {
+                self.conns[ci].ackable += 1;
+            } else {
+                self.conns[ci].silent += 1;
+            }
         }
         self.pump(f.to);
         loop {
@@ -811,11 +842,13 @@ impl Rig {
                 Some(Some(Ok(r))) => replies.push(r.freeze()),
                 Some(Some(Err(_))) | Some(None) => {
                     self.conns[ci].to_dest = None;
+                    self.conns[ci].broken = true;
                     break;
                 }
                 None => break,
             }
         }
+        self.conns[ci].replies += replies.len();
         if relay_reply && f.port == Port::Mempool && !replies.is_empty() {
             // an acknowledgement travels back to the sender of a mempool frame (recorded for the C12 monitor)
             let d = sha(&[&f.data]);
@@ -857,6 +890,7 @@ impl Rig {
     pub fn cut(&mut self, conn: usize) {
         self.conns[conn].out = None;
         self.conns[conn].to_dest = None;
+        self.conns[conn].broken = true;
     }
 
     /// Send bytes from the harness to a node's listener.
@@ -1078,6 +1112,19 @@ impl Rig {
     pub fn trace_records(&self) -> Vec<Value> {
         let mut v = self.dict.records();
         v.extend(self.events.iter().cloned());
+        // the receiver's side of the reliable sender's contract, per connection into a real node: one reply per frame that must be
+        // acknowledged, none for the others (connections that broke, were cut, or lead to a crashed node make no statement)
+        for (ci, c) in self.conns.iter().enumerate() {
+            if c.ackable + c.silent == 0 || c.broken || c.to_dest.is_none() {
+                continue;
+            }
+            let alive = self.nodes.get(c.dest).and_then(|n| n.as_ref()).map(|n| n.alive).unwrap_or(false);
+            if !alive {
+                continue;
+            }
+            let port = match c.port { Port::Consensus => "consensus", Port::Mempool => "mempool", Port::Tx => "tx" };
+            v.push(json!({"t":"net","k":"ConnTotals","conn":ci,"node":c.dest,"from":c.origin,"port":port,"ackable":c.ackable,"silent":c.silent,"replies":c.replies}));
+        }
         v
     }
 
